@@ -343,7 +343,7 @@ static bool run_round3(const std::vector<std::string> &w, out &o)
         exact_buf cell(bytes(1, 0));
         uint32_t ref = 0;
         std::string r;
-        bool reinit = false, cont = false;
+        bool reinit = false, cont = false, watched = false;
         for (size_t k = 1; k < w.size(); k++)
         {
             const std::string &t = w[k];
@@ -357,7 +357,14 @@ static bool run_round3(const std::vector<std::string> &w, out &o)
             {
                 bytes m = unhex(t.substr(2));
                 exact_buf b(m);
-                for (size_t i = 0; i < m.size(); i++) igris_strmcrc8(cell.p, (char)b.p[i]);
+                {
+                    // the routine owns exactly the ONE byte *crc: both neighbours watched (the left one lies in front of the
+                    // allocation, where ASan is granule-exact only)
+                    hw_watch wl(cell.p - 1), wr(cell.p + 1);
+                    for (size_t i = 0; i < m.size(); i++) igris_strmcrc8(cell.p, (char)b.p[i]);
+                    if (wl.hits() || wr.hits()) o.fail("strmcrc8 touched a neighbour of the one-byte crc object (hardware watchpoint)");
+                    if (wl.fd >= 0 && wr.fd >= 0) watched = true;
+                }
                 ref = ref_msb(8, 0x31, ref, m); // continuation of whatever the object held
                 if (k > 1 && w[k - 1][0] == 'f') cont = true;
             }
@@ -366,6 +373,7 @@ static bool run_round3(const std::vector<std::string> &w, out &o)
         }
         o.result = r;
         o.tag("strmobj");
+        if (watched) o.tag("hw-watch");
         if (reinit) o.tag("strm-reinit");
         if (cont) o.tag("strm-no-reinit");
         return true;
